@@ -399,9 +399,15 @@ pub fn random_behaviour(r: &mut Rng, t: &mut Trace, steps: usize) {
                 let (ask, yres) = if r.chance(1, 2) { (a0.clone(), r0) } else { (a1.clone(), r1) };
                 let b = rel_amount(r, (yres / 2).max(10));
                 t.run(&mut w, json!({"op": "q_reverse", "pair": paddr, "ask": asset(&ask, b)}));
+                t.run(&mut w, json!({"op": "q_pool", "pair": paddr}));
+                if r.chance(1, 3) {
+                    t.run(&mut w, json!({"op": "q_fac_config"}));
+                }
                 if r.chance(1, 2) {
                     let route = random_route(r, &w, 4);
-                    t.run(&mut w, json!({"op": "q_router_rev_fold", "amount": st(rel_amount(r, 1000)), "operations": route_ops(&route)}));
+                    let amt_r = rel_amount(r, 1000);
+                    t.run(&mut w, json!({"op": "q_router_rev_fold", "amount": st(amt_r), "operations": route_ops(&route)}));
+                    t.run(&mut w, json!({"op": "q_router_rev", "amount": st(amt_r), "operations": route_ops(&route)}));
                 }
             }
             80..=93 => malformed(r, t, &mut w, i),
